@@ -1896,6 +1896,32 @@ bool DGXMLScanner::scanStartTagNS(bool& gotData)
         }
     }
 
+    //  Also find any default or fixed xmlns attributes declared in the DTD for
+    //  this element that were not provided explicitly, so that the prefixes
+    //  they declare are in scope for the element's own name and for its
+    //  attributes (IGXMLScanner does the same).
+    if (elemDecl->hasAttDefs())
+    {
+        XMLAttDefList& attDefList = elemDecl->getAttDefList();
+        for (XMLSize_t i = 0; i < attDefList.getAttDefCount(); i++)
+        {
+            const XMLAttDef& curDef = attDefList.getAttDef(i);
+            const XMLAttDef::DefAttTypes defType = curDef.getDefaultType();
+            if (defType != XMLAttDef::Default && defType != XMLAttDef::Fixed)
+                continue;
+
+            unsigned int* attCountPtr = fAttDefRegistry->get(&curDef);
+            if (attCountPtr && *attCountPtr >= fElemCount)
+                continue; // provided explicitly, already mapped
+
+            const XMLCh* rawPtr = curDef.getFullName();
+            if (!XMLString::compareNString(rawPtr, XMLUni::fgXMLNSColonString, 6))
+                updateNSMap(XMLUni::fgXMLNSString, rawPtr + 6, curDef.getValue());
+            else if (XMLString::equals(rawPtr, XMLUni::fgXMLNSString))
+                updateNSMap(XMLUni::fgZeroLenString, XMLUni::fgZeroLenString, curDef.getValue());
+        }
+    }
+
     //  Make an initial pass through the list and find any xmlns attributes.
     if (attCount)
       scanAttrListforNameSpaces(fAttrList, attCount, elemDecl);
